@@ -198,6 +198,7 @@ theorem capacity_and_reallocation (g : Nat → Nat → Nat) (hg : ∀ n c, n ≤
   | resize n s => exact gen hc
   | clear => exact gen hc
   | assign a x => exact gen hc
+  | insertSelf pos a b => exact gen hc
 
 /-- `resize_write_area(n)` of a buffer keeps the storage iff `n` cells fit behind the read area -/
 theorem buffer_reallocation {g : Nat → Nat → Nat} {st : St} {ss : SSt} (G : GInv st ss) (k n : Nat) {h' : Heap} {b' : Buf}
@@ -210,6 +211,23 @@ theorem buffer_reallocation {g : Nat → Nat → Nat} {st : St} {ss : SSt} (G : 
 theorem buffer_index_spec {st : St} {ss : SSt} (G : GInv st ss) (k i : Nat) (hi : i < (ss.buf k).1.length) :
     Buf.index st.heap (st.buf k) i = .ok (ss.buf k).1[i] :=
   Buf.index_spec (G.buf k) i hi
+
+/-! ## a range of the vector itself -/
+
+/-- `v.insert(v.begin() + pos, v.begin() + a, v.begin() + b)` (not allowed for std::vector): whenever the range lies in front of
+the insertion point (`b ≤ pos`, in particular for every append `pos = size()`), a copy of the range is inserted, on the
+reallocating path (the old block is read before it is freed) and on the in-place path (the range is not touched by the shift)
+alike. Outside this condition the result depends on the capacity — see the refuted `example` below. -/
+theorem insert_own_range (g : Nat → Nat → Nat) (hg : ∀ n c, n ≤ g n c) {h : Heap} {v : RV} {l : List Int}
+    (hwf : HeapWf h) (ho : Owns h v l) (pos a b : Nat) (hab : a ≤ b) (hbp : b ≤ pos) (hp : pos ≤ l.length) :
+    ∃ h' v', insertSelf g h v pos a b = .ok (h', v') ∧ Owns h' v' (insertAt l pos ((l.drop a).take (b - a))) ∧
+      Frame h v.base h' v'.base := by
+  obtain ⟨h', v', he, ho', hf⟩ := vstep_spec g hg hwf ho (.insertSelf pos a b) _ none
+    (by simp only [svstep]; rw [if_pos ⟨hab, hbp, hp⟩])
+  refine ⟨h', v', ?_, ho', hf⟩
+  simp only [vstep, bind_eq_ok, pure_eq_ok, Except.ok.injEq, Prod.mk.injEq] at he
+  obtain ⟨⟨x, y⟩, hxy, rfl, rfl, _⟩ := he
+  exact hxy
 
 /-! ## derived comparison operators, dynamic_array -/
 
@@ -286,6 +304,25 @@ example :
 
 /-- `dynamic_array_roundtrip`, evaluated -/
 example : (dynRoundTrip Heap.empty 4 [7, 8]).map (fun r => (r.2, r.1.liveCount)) = Except.ok ((4, 4, [7, 8]), 0) := by rfl
+
+/-- a range of the vector itself *behind* the insertion point: `{1,2,3,4}`, `insert(begin(), begin()+2, begin()+4)`.
+With capacity 4 the vector reallocates and a copy of `3,4` is inserted; with capacity 10 the in-place path shifts first and
+then reads `1,2` where `3,4` used to be (observed identically on the real code by the correspondence, `std=na` lines).
+This is why the specification covers own ranges only in front of the insertion point (`insert_own_range`). -/
+example :
+    (do let a ← construct growth Heap.empty (.il [1, 2, 3, 4])
+        let c ← insertSelf growth a.1 a.2 0 2 4
+        toList c.1 c.2) = Except.ok [3, 4, 1, 2, 3, 4] ∧
+    (do let a ← construct growth Heap.empty (.il [1, 2, 3, 4])
+        let b ← reserve growth a.1 a.2 10
+        let c ← insertSelf growth b.1 b.2 0 2 4
+        toList c.1 c.2) = Except.ok [1, 2, 1, 2, 3, 4] ∧
+    (do let a ← construct growth Heap.empty (.il [1, 2, 3, 4])
+        let b ← reserve growth a.1 a.2 10
+        let c ← insertSelf growth b.1 b.2 4 1 3
+        toList c.1 c.2) = Except.ok [1, 2, 3, 4, 2, 3] ∧
+    (svstep [1, 2, 3, 4] (.insertSelf 4 1 3)).map (·.1) = some [1, 2, 3, 4, 2, 3] ∧
+    svstep [1, 2, 3, 4] (.insertSelf 0 2 4) = none := ⟨by rfl, by rfl, by rfl, by decide, by decide⟩
 
 /-! ## the two repaired defects: the old behaviour violates the specification -/
 
